@@ -34,7 +34,7 @@ func main() {
 		Assumptions: []string{
 			"checks/c19/security128.json is the trusted base of the security clause: HE.org 2018 Table 1 (uniform ternary, 128-bit classical) for LogN 10..15; for LogN=16 and the sparse classes only bounds stated in the repository (cited per row) or, where none exists, the largest shipped value as a regression guard (kind=largest-shipped vouches for nothing)",
 			"fixed-weight ternary secrets with H >= N/4 and probabilistic ternary secrets are judged against the standard's uniform-ternary column; the conjugate-invariant ring of degree N is judged as dimension N",
-			"a constructor or generator call that has not returned after 20 s of wall time is a hang (legitimate calls of this check need milliseconds; the LogN=15/16 shipped sets are instantiated without a watchdog verdict)",
+			"a constructor or generator call that has not returned after 12 s of wall time (VERIF_C19_WATCHDOG) is a hang (legitimate calls of this check need milliseconds; the LogN=15/16 shipped sets are instantiated without a watchdog verdict)",
 			"requirements taken from the doc comments: LogQ in ]0,60], LogP in ]0,61], MinLogN <= LogN <= MaxLogN, Ternary with exactly one of H (<= N) and P (in ]0,1]) set, Gaussian sigma > 0 and bound >= 0, BGV t an NTT-friendly prime of the plaintext ring (order >= 16) not dividing Q and <= Q[0], CKKS 0 <= LogDefaultScale <= 128",
 			"generator promise (ring/primes.go): prime, = 1 mod NthRoot, |log2(p) - BitSize| < 0.5, distinct, and an error once the candidates are exhausted",
 			"rings above LogN=12 are never built in item 1 (accept/reject of an invalid modulus only)",
